@@ -505,12 +505,12 @@ pub fn explore(spec: &CheckSpec, tier: &str, seed: u64) -> Outcome {
                         }
                     }
                 });
-                if let Err(TestError::Fail(_, case)) = res {
+                if let Err(TestError::Fail(reason, case)) = res {
                     stop.store(true, Ordering::Relaxed);
                     // re-run the shrunk case to get its exact failure text
                     let f = run_case(spec, &case).err().unwrap_or(Failure {
                         op_index: 0,
-                        what: "shrunk case did not fail again (flaky?)".into(),
+                        what: format!("{reason} [the shrunk case did not fail when it was run once more]"),
                     });
                     let mut g = failure.lock().expect("failure");
                     if g.is_none() {
@@ -606,12 +606,17 @@ pub fn run_history_check(spec: &CheckSpec, tier: &str, seed: u64) -> i32 {
     let mut violations = 0;
     let mut code = 0;
     let mut replay_path = None;
-    if let Some((case, _f)) = &out.failure {
+    if let Some((case, f0)) = &out.failure {
         let small = extra_shrink(spec, case);
         let f = run_case(spec, &small).err().unwrap_or(Failure {
             op_index: 0,
-            what: "minimised case did not fail again".into(),
+            what: format!("{} [the minimised case did not fail when it was run once more]", f0.what),
         });
+        if f.what.contains("HARNESS:") {
+            let p = write_replay(spec.id, &small, &f, json!({"tier": tier, "seed": seed, "harness_problem": true}));
+            println!("HARNESS problem (inconclusive, not a violation): {} [case saved as {}]", f.what, p.display());
+            return 2;
+        }
         let p = write_replay(spec.id, &small, &f, json!({"tier": tier, "seed": seed}));
         println!("FAILURE property={} op_index={} : {}", spec.id, f.op_index, f.what);
         println!("VIOLATION property={} replay={}", spec.id, p.display());
